@@ -60,6 +60,32 @@ class KeyLike(KeyError):
   pass
 
 
+class OwnNew(Exception):
+  """A class whose `__new__` has a signature of its own: a proxy subclass can be CREATED for it
+  but not instantiated the way the library instantiates proxies."""
+
+  def __new__(cls, code):
+    self = super().__new__(cls, code)
+    self.code = code
+    return self
+
+  def __init__(self, code):
+    super().__init__(f'quota {code}')
+
+
+class Immutable(Exception):
+  """Attributes cannot be set after construction."""
+
+  def __init__(self, msg):
+    super().__init__(msg)
+    object.__setattr__(self, '_frozen', True)
+
+  def __setattr__(self, k, v):
+    if getattr(self, '_frozen', False) and not k.startswith('__'):
+      raise AttributeError('immutable exception')
+    object.__setattr__(self, k, v)
+
+
 class BadRepr:
   def __repr__(self):
     raise RuntimeError('repr failed')
@@ -95,6 +121,9 @@ SHAPES = {
     'stop_async': (lambda: StopAsyncIteration('async exhausted'), dict(is_exception=True, subclassable=True)),
     'json_error': (lambda: __import__('json').JSONDecodeError('bad doc', 'x y', 1), dict(is_exception=True, subclassable=True)),
     'two_arg_init': (lambda: TwoArg('field', 'problem'), dict(is_exception=True, subclassable=True)),
+    # a proxy class can be created but not instantiated: the ORIGINAL exception must escape
+    'own_new': (lambda: OwnNew(7), dict(is_exception=True, subclassable=False)),
+    'immutable': (lambda: Immutable('frozen failure'), dict(is_exception=True, subclassable=False)),
     # an exception that already carries the Fiddle context of an EARLIER failed build of another
     # configuration (kept by the program and raised again): the path named for THIS failure must
     # be the one in THIS configuration
@@ -120,7 +149,7 @@ def prepare_stale_proxy():
   except Plain as e:
     _STALE['e'] = e
 QUICK_SHAPES = ['plain', 'custom_init', 'str_override', 'base_exception', 'unsubclassable', 'factory0',
-                'factory1', 'stop_iteration', 'json_error', 'two_arg_init', 'stale_proxy']
+                'factory1', 'stop_iteration', 'json_error', 'two_arg_init', 'stale_proxy', 'own_new', 'immutable']
 
 
 def cases(tier, r):
@@ -129,6 +158,9 @@ def cases(tier, r):
   for _ in range(n):
     yield 'dag', {'seed': r.getrandbits(48), 'size': r.choice([3, 5, 8]),
                   'shapes': [r.choice(shapes) for _ in range(3)], 'bad_key': r.random() < 0.15}
+  for _ in range(12 if tier == 'quick' else 150):
+    yield 'kworder', {'seed': r.getrandbits(48), 'size': 3, 'kworder': True,
+                      'shapes': [r.choice(shapes) for _ in range(3)], 'bad_key': False}
   for _ in range(60 if tier == 'quick' else 800):
     runs = [{'nested': r.choice([0, 0, 1, 2, 3]), 'fails': r.random() < 0.4, 'unconfig': r.random() < 0.35}
             for _ in range(r.randint(1, 5))]
@@ -137,6 +169,16 @@ def cases(tier, r):
 
 def make_root(case):
   r = random.Random(case['seed'])
+  if case.get('kworder'):
+    # two Buildables of one **kwargs callable whose keyword entries were given in different
+    # orders, each entry a Buildable of its own
+    f, g = graphs.node_fn(5, 0), graphs.node_fn(1, 1)
+    names = ['enc', 'dec', 'head'][:r.randint(2, 3)]
+    first = fdl.Config(f, **{n: fdl.Config(g, p=i) for i, n in enumerate(names)})
+    rev = list(reversed(names))
+    r.shuffle(rev) if r.random() < 0.3 else None
+    second = fdl.Config(f, **{n: fdl.Config(g, q=i) for i, n in enumerate(rev)})
+    return fdl.Config(graphs.node_fn(1, 0), p=[first, second], q={'again': second})
   root = graphs.gen_graph(r, size=case['size'], positional=True)
   if case.get('bad_key'):
     # a dict key on the path whose repr() raises: formatting the diagnostic itself fails
